@@ -19,4 +19,8 @@ NoDeadlock == Finished \/ ENABLED Next
 \* the main thread is released exactly once, and only at the very end
 SignalledAtEnd == Finished => (usr2 = 1 /\ nread = NReads /\ inSlots = TotIn /\ outSlots = TotOut)
 Live == <>Finished
+\* the counter abstraction whose inductive invariant Apalache discharges for every input length
+Ind == INSTANCE CopyInd WITH q <- Len(sinkQ), w <- Len(written)
+IndHolds == Ind!IndInv /\ Ind!Safe
+IndRefines == [][Ind!Next]_(Ind!vars)
 =============================================================================
